@@ -515,9 +515,7 @@ def check_init(ctx, P, fname, fields, calls=(), rule="init", why="a primitive th
                                           (" and initialises " + ", ".join(c if isinstance(c, str) else c[0] for c in calls)) if calls else ""), why)
     bad = None
     for rec, fl, want in fields:
-        sts = [s for s in f.stores_to(rec, fl) if key_mentions(f.target_key(s.target), lambda x: x[0] == "var" and x[2] == f.params[0]["did"])
-               or key_mentions(f.key(s.target, True), lambda x: x[0] == "call")]
-        sts = sts or f.stores_to(rec, fl)
+        sts = f.stores_to(rec, fl)
         if not sts:
             zeroed = [s for s in f.stores() if s.kind == "memset" and s.value is not None and strip(s.value).cv == 0] or f.calls("calloc")
             if want == 0 and zeroed:
